@@ -383,3 +383,27 @@ def chain_root(par, e, allowed, depth=0):
             return None, used
         return name, used
     return None, used
+
+
+PANIC_MACROS = {"unreachable", "unimplemented", "panic", "todo", "assert", "assert_eq", "assert_ne"}
+
+
+def is_panic_expr(e):
+    e = unblock(e)
+    return isinstance(e, dict) and any(m in PANIC_MACROS for m in (e.get("mac") or []))
+
+
+def diverges(e):
+    """the expression never completes normally: return/break/continue/panic!, or a block ending in one"""
+    e = unblock(e)
+    if not isinstance(e, dict):
+        return False
+    if e.get("k") in ("ret", "break", "continue") or is_panic_expr(e):
+        return True
+    if e.get("k") == "block":
+        sts = e.get("stmts") or []
+        last = e.get("e") or (sts[-1] if sts else None)
+        if isinstance(last, dict) and last.get("k") == "semi":
+            last = last["e"]
+        return diverges(last) if last is not None else False
+    return False
